@@ -212,6 +212,8 @@ func (s *State) extFresh(r Term, t types.Type) {
 		// a fresh backing store, not aliasing anything of dig
 		s.assume(mkAnd(app("Bool", ">=", sLen(r), intLit(0)), app("Bool", ">=", sCap(r), sLen(r)), app("Bool", ">=", sOff(r), intLit(0)),
 			app("Bool", ">", sArr(r), s.alloc)))
+		// code outside the verified packages allocates no objects of dig's struct types (A-reent)
+		s.assume(Term{fmt.Sprintf("(forall ((r!x Int)) (! (=> (and (< %s r!x) (<= r!x %s)) (= (typetag r!x) 0)) :pattern ((typetag r!x)) :qid extalloc))", s.alloc.S, sArr(r).S), "Bool"})
 		s.alloc = s.define("alloc", sArr(r))
 	case *types.Pointer, *types.Map:
 		s.assume(app("Bool", ">=", r, intLit(0)))
@@ -336,7 +338,8 @@ func (x *Exec) appendOp(s *State, v *ssa.Call) {
 	inPlace := mkAnd(le(newLen, sCap(a)), mkNot(mkEq(sArr(a), intLit(0))))
 	inPlace = s.define("append.inplace", inPlace)
 	freshArr := s.fresh("append.new", "Int")
-	s.assume(app("Bool", ">", freshArr, s.alloc))
+	s.assume(mkEq(freshArr, add(s.alloc, intLit(1))))
+	s.tagRef(freshArr, nil)
 	s.alloc = freshArr
 	ra := s.define("append.arr", mkIte(inPlace, sArr(a), freshArr))
 	rc := s.fresh("append.cap", "Int")
@@ -586,6 +589,10 @@ func (x *Exec) applyContract(s *State, c *Contract, key string, sig *types.Signa
 	if c.Allocates {
 		na := s.fresh("$alloc", "Int")
 		s.assume(app("Bool", ">=", na, s.alloc))
+		if x.externalKey(key) {
+			// code outside the verified packages allocates no objects of dig's struct types
+			s.assume(Term{fmt.Sprintf("(forall ((r!x Int)) (! (=> (and (< %s r!x) (<= r!x %s)) (= (typetag r!x) 0)) :pattern ((typetag r!x)) :qid extalloc))", s.alloc.S, na.S), "Bool"})
+		}
 		s.alloc = na
 	}
 	var panicState *State
@@ -990,4 +997,24 @@ func (w *World) flatArrays(st types.Type, path []int) []string {
 func (x *Exec) runDeferLoop(s *State, de *deferEntry, kind int) bool {
 	x.unsup("deferred calls registered in a loop (%s) are not yet supported", de.inLoop.key)
 	return false
+}
+
+// externalKey: the contract belongs to a function or method of a package
+// outside the verified ones (reflect, errors, math/rand, ...).
+func (x *Exec) externalKey(key string) bool {
+	if strings.HasPrefix(key, "type:") {
+		return false
+	}
+	k := strings.TrimLeft(key, "(*")
+	i := strings.Index(k, ".")
+	if i < 0 {
+		return false
+	}
+	pn := k[:i]
+	for _, sp := range x.w.pkgs {
+		if shortPkg(sp.Pkg) == pn {
+			return false
+		}
+	}
+	return true
 }
